@@ -13,7 +13,8 @@
      D:badmethod  unknown method on a routed path did not answer 400 (documented detail)
      D:allow      an Allow header where the decision has none (or vice versa) outside 405 / OPTIONS
      D:addroute   add_route accepted / rejected differently from the suffix rule
-     H:conflict   the harness generated two different fields at one template position *)
+     H:conflict   the harness generated two different fields at one template position
+     H:sink       the harness generated a sink prefix outside the pattern language (WellFormedSink) *)
 EXTENDS Dispatch, Json, IOUtils
 
 Traces == JsonDeserialize(IOEnv.TRACE_FILE)
@@ -48,6 +49,8 @@ JudgeRoute ==
     ELSE IF Ev.ok /\ ~ConflictFree(RoutesWith(Ev.tmpl, Ev.id, Kind, Ev.sfx)) THEN "H:conflict"
     ELSE "ok"
 
+JudgeSink == IF WellFormedSink(Ev.pat) THEN "ok" ELSE "H:sink"
+
 (* what an event does to the dispatch tables (assembly events as logged; requests change nothing) *)
 Apply ==
     /\ routes'  = (IF Ev.op = "route" /\ Ev.ok THEN RoutesWith(Ev.tmpl, Ev.id, Kind, Ev.sfx) ELSE routes)
@@ -58,7 +61,7 @@ Apply ==
 
 Step ==
     /\ l >= 1 /\ l <= Len(T.ev) /\ verdict = "ok"
-    /\ verdict' = (CASE Ev.op = "req" -> JudgeReq [] Ev.op = "route" -> JudgeRoute [] OTHER -> "ok")
+    /\ verdict' = (CASE Ev.op = "req" -> JudgeReq [] Ev.op = "route" -> JudgeRoute [] Ev.op = "sink" -> JudgeSink [] OTHER -> "ok")
     /\ Apply
 
 Done ==
